@@ -193,7 +193,8 @@ class Ctx:
         if m:
             r.depth = int(m.group(1))
         if r.status != "timeout":
-            mv = re.search(r"Error: Invariant (\S+) is violated", r.out)
+            mv = (re.search(r"Error: Invariant (\S+) is violated", r.out)
+                  or re.search(r"Error: The invariant of (\S+) is equal to FALSE", r.out))
             mp = re.search(r"Error: Action property (\S+) is violated", r.out)
             mt = re.search(r"Error: Temporal properties were violated", r.out)
             mpost = re.search(r"Error: Postcondition|POSTCONDITION|post-condition", r.out)
